@@ -265,6 +265,9 @@ class Connector:
     connected.upon(accept, enter=connected, outputs=[])
     connected.upon(stop, enter=stopped, outputs=[stop_everything])
 
+    # a candidate's queued acceptance can arrive after we were stopped
+    stopped.upon(accept, enter=stopped, outputs=[])
+
     # from Manager: start, got_hints, stop
     # maybe add_candidate, accept
 
